@@ -13,6 +13,7 @@ func init() {
 			"(C09-emit) every loop over rows emits on every path through its body; " +
 			"(C09-orient) header and row builders of the csv and md tables order the columns alike in both orientations and are called with the same flag; md sub-sections pair rows, flag and header; exposure entries are oriented by direction. " +
 			"(C09-sel) a function that renders a label selector either runs the full selector writer on the path to its return or chooses an abbreviated text only where the path condition pins both matchLabels and matchExpressions. " +
+			"(C09-str) String and ProtocolsAndPortsMap of a connection set build their result in loops over the set's own protocol map; (C09-str-lossless) the numbered ports of a port set are rendered by the interval library's String() of the whole set. " +
 			"NOT decided: that the text of a row parses back to the same value (quoting, separators); encoding/json and encoding/csv are trusted."
 		rules.ProjectionSharing(p, r, "C09-proj")
 		rules.NoDropExits(p, r, "C09-nodrop")
